@@ -54,15 +54,21 @@ fn le8(data: &[u8]) -> u64 {
 }
 /// what one transaction of the `d<k>` family does to a key/value image (the oracle's own replay)
 fn apply_to_image(img: &mut BTreeMap<u64, u64>, t: &Transaction) {
+    // keys outside the `d<k>` family (only present when `add_operation` let a reserved key through) are not data keys
+    let dk = |key: &str| key.strip_prefix('d').and_then(|x| x.parse::<u64>().ok());
     match t {
         Transaction::Put { key, data } => {
-            img.insert(key[1..].parse().unwrap(), le8(data));
+            if let Some(k) = dk(key) {
+                img.insert(k, le8(data));
+            }
         }
         Transaction::Delete { key } => {
-            img.remove(&key[1..].parse::<u64>().unwrap());
+            if let Some(k) = dk(key) {
+                img.remove(&k);
+            }
         }
         Transaction::CompareAndSwap { key, expected_data, new_data } => {
-            let k: u64 = key[1..].parse().unwrap();
+            let Some(k) = dk(key) else { return };
             let matches = match img.get(&k) {
                 Some(cur) => expected_data.len() == 8 && le8(expected_data) == *cur,
                 None => expected_data.is_empty(),
@@ -82,17 +88,16 @@ fn show_txs(t: &[Tx]) -> String {
     }
 }
 fn show_real_tx(t: &Transaction) -> String {
+    // `d<k>` keys in the model's spelling; any other key (a reserved key that was let through) verbatim
+    let sk = |key: &str| match key.strip_prefix('d') {
+        Some(x) if x.parse::<u64>().is_ok() => x.to_string(),
+        _ => format!("[{key}]"),
+    };
     match t {
-        Transaction::Put { key, data } => {
-            let mut b = [0u8; 8];
-            for (i, x) in data.iter().take(8).enumerate() {
-                b[i] = *x;
-            }
-            format!("p{}:{}", &key[1..], u64::from_le_bytes(b))
-        }
-        Transaction::Delete { key } => format!("d{}", &key[1..]),
+        Transaction::Put { key, data } => format!("p{}:{}", sk(key), le8(data)),
+        Transaction::Delete { key } => format!("d{}", sk(key)),
         Transaction::CompareAndSwap { key, expected_data, new_data } => {
-            format!("c{}:{}:{}", &key[1..], if expected_data.is_empty() { "-".to_string() } else { le8(expected_data).to_string() }, le8(new_data))
+            format!("c{}:{}:{}", sk(key), if expected_data.is_empty() { "-".to_string() } else { le8(expected_data).to_string() }, le8(new_data))
         }
         _ => "other".into(),
     }
@@ -138,6 +143,8 @@ fn verr(e: &ChainError) -> String {
                 "err not_active".into()
             } else if m.contains("cannot rollback committed") {
                 "err committed".into()
+            } else if m.contains("reserved prefix") {
+                "err reserved".into()
             } else {
                 format!("err txfail:{m}")
             }
@@ -232,6 +239,9 @@ enum Op {
     Put(usize, u64, u64),
     Del(usize, u64),
     Cas(usize, u64, Option<u64>, u64),
+    /// `add_operation` with a key under the reserved `chain:` prefix: kind (`put` / `del` / `cas`), the key in the
+    /// model's spelling (`meta` = `chain:meta`, `block:<h>` = `chain:block:<h>`), value
+    RawAdd(usize, &'static str, String, u64),
     Commit(usize),
     Rollback(usize),
     /// restart: a new `TensorChain` object (same identity) over the same store + `initialize()`
@@ -245,6 +255,11 @@ fn show_op(o: &Op) -> String {
         Op::Put(w, k, v) => format!("put {w} {k} {v}"),
         Op::Del(w, k) => format!("del {w} {k}"),
         Op::Cas(w, k, e, v) => format!("cas {w} {k} {} {v}", e.map_or("-".to_string(), |e| e.to_string())),
+        Op::RawAdd(w, kind, key, v) => match *kind {
+            "put" => format!("radd {w} put {key} {v}"),
+            "del" => format!("radd {w} del {key}"),
+            _ => format!("radd {w} cas {key} - {v}"),
+        },
         Op::Commit(w) => format!("commit {w}"),
         Op::Rollback(w) => format!("rollback {w}"),
         Op::Reopen => "reopen".into(),
@@ -252,6 +267,19 @@ fn show_op(o: &Op) -> String {
         Op::State => "state".into(),
     }
 }
+
+/// the store key a model-spelled reserved key stands for
+fn reserved_real_key(key: &str) -> String {
+    format!("chain:{key}")
+}
+fn reserved_tx(kind: &str, real_key: &str, v: u64) -> Transaction {
+    match kind {
+        "put" => Transaction::Put { key: real_key.to_string(), data: v.to_le_bytes().to_vec() },
+        "del" => Transaction::Delete { key: real_key.to_string() },
+        _ => Transaction::CompareAndSwap { key: real_key.to_string(), expected_data: vec![], new_data: v.to_le_bytes().to_vec() },
+    }
+}
+const NAMESPACE_CLASS: &str = "tensor_chain.commit/workspace_write_to_chain_namespace";
 
 fn gen_ops(r: &mut Rng, allow_stale_rollback: bool) -> Vec<Op> {
     let n = 8 + r.below(30) as usize;
@@ -272,6 +300,13 @@ fn gen_ops(r: &mut Rng, allow_stale_rollback: bool) -> Vec<Op> {
         } else if c < 60 {
             let w = r.below(nws as u64) as usize;
             let k = if dirs[w] == 0 { r.below(5) } else { 100 * dirs[w] + r.below(2) };
+            if r.chance(1, 8) {
+                // a key of the chain's own records (must be refused: repo commit b368f92a)
+                let key = if r.chance(1, 4) { "meta".to_string() } else { format!("block:{}", r.below(5)) };
+                ops.push(Op::RawAdd(w, *r.pick(&["put", "del", "cas"]), key, val));
+                val += 1;
+                continue;
+            }
             match r.below(10) {
                 0 | 1 => ops.push(Op::Del(w, k)),
                 2 | 3 => {
@@ -352,6 +387,8 @@ fn run_ws_case(m: &mut Model, ops: &[Op], max_txs: usize, auto_merge: bool, max_
     let mut expect_data: BTreeMap<u64, u64> = BTreeMap::new();
     let mut ts = 1u64;
     let mut broken = false;
+    let mut reserved_accepted = false;
+    let mut taint_from = usize::MAX;
     for (i, op) in ops.iter().enumerate() {
         let (imp, model, tag): (String, String, &str) = match op {
             Op::Begin(d) => {
@@ -375,6 +412,19 @@ fn run_ws_case(m: &mut Model, ops: &[Op], max_txs: usize, auto_merge: bool, max_
             Op::Cas(w, k, e, v) => {
                 let r = wss[*w].add_operation(Tx::Cas(*k, *e, *v).real());
                 (r.map_or_else(|e| verr(&e), |()| "ok".into()), m.ask(&show_op(op)), "cas")
+            }
+            Op::RawAdd(w, kind, key, v) => {
+                let real_key = reserved_real_key(key);
+                let r = wss[*w].add_operation(reserved_tx(kind, &real_key, *v));
+                // oracle (implementation only; Lean: add_operation_refuses_reserved_keys): never accepted
+                if r.is_ok() {
+                    if !reserved_accepted {
+                        taint_from = out.violations.len();
+                    }
+                    reserved_accepted = true;
+                    out.violations.push((NAMESPACE_CLASS.into(), format!("op {i}: add_operation accepted {kind} on the chain's own record {real_key:?}")));
+                }
+                (r.map_or_else(|e| verr(&e), |()| "ok".into()), m.ask(&show_op(op)), "radd")
             }
             Op::Commit(w) => {
                 let before_h = tc.height();
@@ -516,6 +566,14 @@ fn run_ws_case(m: &mut Model, ops: &[Op], max_txs: usize, auto_merge: bool, max_
             }
         }
     }
+    // once a key under the reserved prefix was let into a workspace of this chain, every later oracle failure of the
+    // case is a consequence of that: the class is computed from the trace
+    for v in out.violations.iter_mut().skip(taint_from) {
+        if v.0 != NAMESPACE_CLASS {
+            v.1 = format!("(after add_operation accepted a key under the reserved chain: prefix) {}: {}", v.0, v.1);
+            v.0 = NAMESPACE_CLASS.into();
+        }
+    }
     out
 }
 
@@ -642,6 +700,20 @@ fn snap_diff(a: &ChainSnap, b: &ChainSnap) -> Vec<String> {
         }
     }
     out
+}
+
+/// the records under the chain's own prefix that differ between two dumps of the store
+fn chain_record_changes(a: &Dump, b: &Dump) -> Vec<String> {
+    let keys: BTreeSet<&String> = a.keys().chain(b.keys()).filter(|k| k.starts_with("chain:")).collect();
+    keys.into_iter()
+        .filter_map(|k| match (a.get(k), b.get(k)) {
+            (Some(x), Some(y)) if x == y => None,
+            (Some(_), Some(_)) => Some(format!("{k} changed")),
+            (Some(_), None) => Some(format!("{k} GONE")),
+            (None, Some(_)) => Some(format!("{k} NEW")),
+            (None, None) => None,
+        })
+        .collect()
 }
 
 struct LfFail {
@@ -1471,6 +1543,9 @@ fn main() {
     rep.expected_branches = [
         "ws.commit.ok_h", "ws.commit.empty", "ws.commit.err_not_active", "ws.commit.err_too_many", "ws.commit.err_conflict",
         "ws.rollback.ok", "ws.rollback.err_committed", "ws.put.err_not_active", "ws.merge.block_with_merged_ops",
+        "ws.radd.err_reserved", "ws.radd.err_not_active", "directed.namespace.refused", "directed.namespace.lookalike_accepted",
+        "variants.reserved.refused", "directed.removed_tip.undetected_after_restart",
+        "directed.committed_block_replay.separate.rejected", "directed.committed_block_replay.shared.rejected",
         "append.ok", "append.err height", "append.err prev_hash", "append.err tx_root", "append.err unsigned", "append.err bad_sig",
         "verify.ok", "verify.err height", "verify.err prev_hash", "verify.err tx_root", "verify.err timestamp", "verify.err bad_sig",
         "verify.err not_found", "verify.err empty_chain", "tamper.genesis_transactions.detected", "concurrent.directed.reproduced",
@@ -1510,6 +1585,228 @@ fn main() {
         }
     };
 
+
+    // ---------------- directed cases (run first on every run, independent of the seed)
+    // (1) REGRESSION of repo commit b368f92a, class tensor_chain.commit/workspace_write_to_chain_namespace: the chain
+    // keeps its block records and its height record in the store its transactions write to; `add_operation` must
+    // refuse every key under the reserved `chain:` prefix.  Oracle: an ACCEPTED key under the prefix is a violation
+    // (reported with what commit + verify() then do); the model (`addOperation`) is asked for the keys it has.
+    {
+        // (1a) the failing input of the finding, alone: height 1; begin; Put{chain:block:1}; commit; verify
+        for kind in ["put", "del"] {
+            let store = TensorStore::new();
+            let tc = TensorChain::with_identity(store.clone(), ChainConfig::new("n"), node_identity());
+            tc.initialize().unwrap();
+            let w = tc.begin().unwrap();
+            w.add_operation(Tx::Put(1, 1).real()).unwrap();
+            tc.commit(&w).unwrap();
+            let before = chain_snap(&tc, &store);
+            let w = tc.begin().unwrap();
+            let added = w.add_operation(reserved_tx(kind, "chain:block:1", 1));
+            m.ask("init 1000 0 10 0");
+            for l in ["begin", "put 0 1 1", "commit 0 1", "begin"] {
+                m.ask(l);
+            }
+            let line = if kind == "put" { "radd 1 put block:1 1" } else { "radd 1 del block:1" };
+            let ops = json!(["begin", "put d1 1", "commit", "begin", format!("{kind} chain:block:1"), "commit", "verify"]);
+            rep.compare("directed.namespace", || json!({"ops": ops, "at": line}), &added.as_ref().map_or_else(|e| verr(e), |()| "ok".into()), &m.ask(line));
+            let res = tc.commit(&w);
+            let ver = tc.verify();
+            let after = chain_snap(&tc, &store);
+            if added.is_ok() {
+                violation(&mut rep, NAMESPACE_CLASS, &format!("add_operation accepted {kind} on the chain's own record \"chain:block:1\" (regression of repo commit b368f92a); commit = {:?}; verify() = {}; {}",
+                    res.as_ref().map(|_| ()).map_err(|e| e.to_string()), vres(ver), snap_diff(&before, &after).join("; ")), json!({"stream": "directed.namespace", "ops": ops}));
+            } else {
+                rep.hit("directed.namespace.refused");
+                // the refused operation left nothing behind: the commit is an empty commit, chain and store untouched
+                rep.compare("directed.namespace", || json!({"ops": ops, "at": "commit 1"}), &res.as_ref().map_or_else(|e| verr(e), |_| "empty".to_string()), &m.ask("commit 1 2"));
+                if after != before || ver.is_err() {
+                    violation(&mut rep, "tensor_chain.workspace/refused_operation_changed_state", &format!("a refused add_operation + commit of the empty workspace changed chain or store: {}; verify() = {}", snap_diff(&before, &after).join("; "), vres(ver)), json!({"stream": "directed.namespace", "ops": ops}));
+                }
+            }
+            rep.case("directed.namespace", Some(&format!("minimal {kind}")));
+        }
+        // (1b) every kind of operation on every shape of key under the prefix, on one active workspace; look-alikes
+        // that are NOT under the prefix are accepted; then a data-key put, commit, verify
+        let store = TensorStore::new();
+        let tc = TensorChain::with_identity(store.clone(), ChainConfig::new("n"), node_identity());
+        tc.initialize().unwrap();
+        let w = tc.begin().unwrap();
+        w.add_operation(Tx::Put(1, 1).real()).unwrap();
+        tc.commit(&w).unwrap();
+        m.ask("init 1000 0 10 0");
+        for l in ["begin", "put 0 1 1", "commit 0 1", "begin"] {
+            m.ask(l);
+        }
+        let w = tc.begin().unwrap();
+        let before = chain_snap(&tc, &store);
+        let mut script: Vec<String> = vec!["begin".into(), "put d1 1".into(), "commit".into(), "begin".into()];
+        let mut accepted: Vec<String> = Vec::new();
+        for key in ["chain:block:1", "chain:block:0", "chain:block:2", "chain:block:7", "chain:meta", "chain:", "chain:x", "chain:block:", "chain:block:abc", "chain:meta:x"] {
+            for kind in ["put", "del", "cas"] {
+                let r = w.add_operation(reserved_tx(kind, key, 5));
+                let imp = r.as_ref().map_or_else(|e| verr(e), |()| "ok".into());
+                script.push(format!("{kind} {key} => {imp}"));
+                // the model has the keys that name a record of the chain
+                let mkey = key.strip_prefix("chain:").filter(|k| *k == "meta" || k.strip_prefix("block:").is_some_and(|h| h.parse::<u64>().is_ok()));
+                if let Some(mk) = mkey {
+                    let line = show_op(&Op::RawAdd(1, kind, mk.to_string(), 5));
+                    rep.compare("directed.namespace", || json!({"script": script, "at": line}), &imp, &m.ask(&line));
+                }
+                if r.is_ok() {
+                    accepted.push(format!("{kind} {key}"));
+                } else {
+                    rep.hit("directed.namespace.refused");
+                }
+            }
+        }
+        // a refused operation is not recorded
+        if accepted.is_empty() && (w.operation_count() != 0 || !w.affected_keys().is_empty()) {
+            violation(&mut rep, "tensor_chain.workspace/refused_operation_recorded", "add_operation returned the reserved-prefix error yet recorded the operation or its key", json!({"stream": "directed.namespace", "script": script}));
+        }
+        for t in [
+            Transaction::Put { key: "my:chain:block:1".into(), data: vec![1] },
+            Transaction::Put { key: "chain".into(), data: vec![1] },
+            Transaction::NodeCreate { key: "chain:x".into(), label: "L".into() },
+            Transaction::Embed { key: "chain:block:1".into(), vector: vec![1.0] },
+        ] {
+            let r = w.add_operation(t.clone());
+            script.push(format!("{t:?} => {}", r.as_ref().map_or_else(|e| verr(e), |()| "ok".into())));
+            if r.is_ok() {
+                rep.hit("directed.namespace.lookalike_accepted");
+            } else {
+                violation(&mut rep, "tensor_chain.workspace/unreserved_key_refused", "add_operation refused a key that is not under the chain: prefix", json!({"stream": "directed.namespace", "script": script}));
+            }
+        }
+        let r = w.add_operation(Tx::Put(4, 4).real());
+        rep.compare("directed.namespace", || json!({"script": script, "at": "put 1 4 4"}), &r.map_or_else(|e| verr(&e), |()| "ok".into()), &m.ask("put 1 4 4"));
+        let res = tc.commit(&w);
+        let ver = tc.verify();
+        let after = chain_snap(&tc, &store);
+        script.push(format!("commit => {:?}; verify => {}", res.as_ref().map(|_| ()).map_err(|e| e.to_string()), vres(tc.verify())));
+        // chain records after the commit: exactly the old ones plus block 2, height record rewritten
+        let chain_changes = chain_record_changes(&before.dump, &after.dump);
+        let clean = res.is_ok() && ver.is_ok() && chain_changes == vec!["chain:block:2 NEW".to_string(), "chain:meta changed".to_string()];
+        if !accepted.is_empty() {
+            violation(&mut rep, NAMESPACE_CLASS, &format!("add_operation accepted operations on keys under the reserved chain: prefix (regression of repo commit b368f92a): {accepted:?}; commit = {:?}; verify() = {}; chain records: {chain_changes:?}",
+                res.as_ref().map(|_| ()).map_err(|e| e.to_string()), vres(ver)), json!({"stream": "directed.namespace", "script": script}));
+        } else if !clean {
+            violation(&mut rep, "tensor_chain.commit/chain_record_changed_outside_append", &format!("every reserved key was refused, yet after the commit: commit = {:?}, verify() = {}, chain records: {chain_changes:?}",
+                res.as_ref().map(|_| ()).map_err(|e| e.to_string()), vres(ver)), json!({"stream": "directed.namespace", "script": script}));
+        } else {
+            // only compared on the healthy path (the model has no operation on a record of the chain to commit)
+            rep.compare("directed.namespace", || json!({"script": script, "at": "state"}), &state_line(&tc, &store), &{
+                m.ask("commit 1 2");
+                m.ask("state")
+            });
+        }
+        rep.case("directed.namespace", Some("sweep"));
+        rep.sample(json!({"stream": "directed.namespace", "script": script}));
+    }
+    // (2) KNOWN FINDING tensor_chain.initialize/removed_tip_block_undetected_after_restart: two appended blocks; the
+    // record of the tip block is removed; the running object's verify_chain() reports it; a new Chain + initialize()
+    // walks the height back, saves it, and verify_chain() returns Ok on the truncated chain.
+    {
+        let mut rc = new_raw(true);
+        let mut val = 0u64;
+        let mut lines = Vec::new();
+        for j in 0..2u64 {
+            let txs = vec![Tx::Put(j + 1, { val += 1; val })];
+            let b = mk_block(&rc, "ok", "ok", "ok", "ok", 1000 + 2 * j, 1, &txs);
+            lines.push(format!("append block {} [{}] => {}", j + 1, show_txs(&txs), rc.chain.append(b).map_or_else(|e| verr(&e), |_| "ok".into())));
+        }
+        let h0 = rc.chain.height();
+        let healthy = vres(rc.chain.verify_chain());
+        rc.store.delete("chain:block:2").unwrap();
+        let running = vres(rc.chain.verify_chain());
+        let opened = rc.reopen();
+        let restarted = vres(rc.chain.verify_chain());
+        let input = json!({"stream": "directed.removed_tip", "build": lines, "damage": "store.delete(\"chain:block:2\")", "height_before": h0, "verify_before_damage": healthy,
+            "verify_running_object": running, "initialize": opened.as_ref().map_or_else(|e| verr(e), |()| "ok".to_string()), "height_after_restart": rc.chain.height(), "height_record_after_restart": meta_height(&rc.store), "verify_after_restart": restarted});
+        if h0 == 2 && healthy == "ok" && running == "err not_found 2" && opened.is_ok() && restarted == "ok" && rc.chain.height() == 1 {
+            rep.hit("directed.removed_tip.undetected_after_restart");
+            violation(&mut rep, "tensor_chain.initialize/removed_tip_block_undetected_after_restart", "the record of the tip block was removed from the store: the running object's verify_chain() reports it, but a new Chain + initialize() walks the height back, saves it, and verify_chain() returns Ok on the truncated chain (Lean: reopen_heals_removed_tip_witness)", input);
+        } else if healthy == "ok" && running == "ok" {
+            violation(&mut rep, "tensor_chain.verify/removed_tip_block_undetected", "the record of the tip block was removed from the store and the running object's verify_chain() still returns Ok", input);
+        }
+        rep.case("directed.removed_tip", Some("remove tip of 2"));
+    }
+    // (3) KNOWN FINDINGS tensor_chain.state_machine.apply_block/committed_block_rejected_{separate,shared}_store_replica:
+    // the blocks TensorChain::commit produces, replayed through TensorStateMachine::apply_block on a fresh replica
+    // bootstrapped from the same genesis.  The class is the listed one only when the trace shows the listed cause:
+    // the verdict is the state-root check; separate state store: from block 1 on although the replica's data keys
+    // are exactly the proposer's; shared store: block 1 accepted, block 2 rejected, and the records in which the
+    // proposer's store (after its block 1) and the replica's store (after block 1) differ are graph records only.
+    {
+        let raft = {
+            let id = Identity::generate();
+            Arc::new(RaftNode::new(id.node_id(), vec![], Arc::new(MemoryTransport::new(id.node_id())), RaftConfig::default()))
+        };
+        for shared in [false, true] {
+            let cfgname = if shared { "shared" } else { "separate" };
+            let store = TensorStore::new();
+            let tc = TensorChain::with_identity(store.clone(), ChainConfig::new("n"), node_identity());
+            tc.initialize().unwrap();
+            let mut proposer_after: Vec<(Dump, Dump)> = Vec::new(); // (all keys, keys written by transactions) after block i+1
+            for i in 0..2u64 {
+                let w = tc.begin().unwrap();
+                w.add_operation(Tx::Put(i, i).real()).unwrap();
+                tc.commit(&w).unwrap();
+                proposer_after.push((store_dump(&store), user_dump(&store)));
+                // the graph records beside a block carry a wall-clock `_created_at` (ms)
+                std::thread::sleep(std::time::Duration::from_millis(3));
+            }
+            let chain_store = TensorStore::new();
+            chain_store.put("chain:block:0", store.get("chain:block:0").unwrap()).unwrap();
+            let mut td = TensorData::new();
+            td.set("height", TensorValue::Scalar(ScalarValue::Int(0)));
+            chain_store.put("chain:meta", td).unwrap();
+            let graph = Arc::new(GraphEngine::with_store(chain_store.clone()));
+            let chain = Arc::new(Chain::new(graph, tc.node_id().clone()));
+            chain.initialize().unwrap();
+            let state = if shared { chain_store.clone() } else { TensorStore::new() };
+            let sm = TensorStateMachine::new(chain, raft.clone(), state.clone());
+            let mut verdicts: Vec<String> = Vec::new();
+            let mut data_agrees: Vec<bool> = Vec::new();
+            let mut differing: Vec<Vec<String>> = Vec::new();
+            for h in 1..=tc.height() {
+                let b = tc.get_block(h).unwrap().unwrap();
+                // what the replica's data keys WOULD be with the block applied (apply_block undoes a rejected block)
+                let would = TensorStore::new();
+                would.restore_from_bytes(&state.snapshot_bytes().unwrap()).unwrap();
+                for t in &b.transactions {
+                    let _ = apply_transaction_to_store(&would, t);
+                }
+                data_agrees.push(user_dump(&would) == proposer_after[h as usize - 1].1);
+                verdicts.push(sm.apply_block(&b).map_or_else(|e| verr(&e), |()| "ok".into()));
+                let mine = store_dump(&state);
+                let theirs = &proposer_after[h as usize - 1].0;
+                differing.push(mine.keys().chain(theirs.keys()).filter(|k| mine.get(*k) != theirs.get(*k)).cloned().collect::<BTreeSet<_>>().into_iter().collect());
+            }
+            let input = json!({"stream": "directed.committed_block_replay", "config": cfgname, "proposer": ["begin; put d0 0; commit", "begin; put d1 1; commit"],
+                "replica": "fresh Chain over the proposer's genesis record + TensorStateMachine", "verdicts_blocks_1_2": verdicts, "replica_data_keys_would_equal_proposers": data_agrees,
+                "store_keys_differing_after_each_block": differing});
+            if let Some(i) = verdicts.iter().position(|v| v != "ok") {
+                rep.hit(&format!("directed.committed_block_replay.{cfgname}.rejected"));
+                let kind = verdicts[i].trim_start_matches("err ").replace([' ', ':'], "_");
+                let graph_only = |keys: &Vec<String>| !keys.is_empty() && keys.iter().all(|k| k.starts_with("node:") || k.starts_with("edge:"));
+                let listed_cause = kind == "state_root" && data_agrees[i] && if shared { i == 1 && graph_only(&differing[0]) } else { i == 0 };
+                let class = if listed_cause {
+                    format!("tensor_chain.state_machine.apply_block/committed_block_rejected_{cfgname}_store_replica")
+                } else {
+                    format!("tensor_chain.state_machine.apply_block/committed_block_rejected_{cfgname}_store_replica_{kind}_at_block_{}", i + 1)
+                };
+                let what = if shared {
+                    "a replica whose state store is its chain store accepts block 1 of a chain built by TensorChain::commit and rejects block 2 (state root): the root commit() wrote covers the graph records written beside each block, whose _created_at is the wall clock (Lean: committed_block_replays_on_shared_replica holds of the store image the model has, which has no graph records)"
+                } else {
+                    "a replica with a separate state store rejects every block built by TensorChain::commit (state root) although its data keys would be exactly the proposer's: the root commit() wrote covers the proposer's whole store, chain records included (Lean: committed_block_rejected_by_separate_replica_witness)"
+                };
+                violation(&mut rep, &class, what, input);
+            }
+            rep.case("directed.committed_block_replay", Some(cfgname));
+        }
+    }
+    lap("directed");
     // ---------------- stream A: workspace op sequences
     let mut r = root.fork("workspaces");
     for case in 0..250 * scale {
@@ -1543,7 +1840,7 @@ fn main() {
                 for o in cand {
                     match o {
                         Op::Begin(_) => n += 1,
-                        Op::Put(w, ..) | Op::Del(w, _) | Op::Cas(w, ..) | Op::Commit(w) | Op::Rollback(w) => {
+                        Op::Put(w, ..) | Op::Del(w, _) | Op::Cas(w, ..) | Op::RawAdd(w, ..) | Op::Commit(w) | Op::Rollback(w) => {
                             if *w >= n {
                                 return false;
                             }
@@ -1936,7 +2233,6 @@ fn main() {
     // height record, one further append and a second restart are compared with the model (`openChain`).
     let mut r = root.fork("reopen");
     const DAMAGES: &[&str] = &["none", "remove_tip", "remove_inner", "meta_ahead", "meta_behind", "meta_deleted", "plant_next_valid", "plant_next_badprev", "plant_gap"];
-    let mut tip_obs = false;
     for case in 0..(DAMAGES.len() as u64 + 40 * scale) {
         let directed = (case as usize) < DAMAGES.len();
         let with_reg = directed || r.chance(3, 4);
@@ -2007,6 +2303,8 @@ fn main() {
         let healthy = dmg_line == "none";
         let (h0, tip0) = (rc.chain.height(), rc.chain.tip_hash());
         let desc = json!({"stream": "reopen", "registry": with_reg, "build": lines, "damage": dmg_line});
+        let running_ver = vres(rc.chain.verify_chain());
+        rep.compare("reopen.verify_running_object", || desc.clone(), &running_ver, &m.ask("cverify"));
         let opened = rc.reopen();
         let imp = opened.as_ref().map_or_else(|e| verr(e), |()| rc.state());
         let model = format!("{} meta={}", m.ask("copen 5000"), m.ask("cmeta"));
@@ -2016,10 +2314,10 @@ fn main() {
         if healthy && (opened.is_err() || rc.chain.height() != h0 || rc.chain.tip_hash() != tip0 || ver != "ok") {
             violation(&mut rep, "tensor_chain.initialize/restart_changed_chain", "a new Chain object over the untouched store of a verifying chain + initialize() does not recover height / tip, or the recovered chain does not verify", desc.clone());
         }
-        if damage == "remove_tip" && ver == "ok" && !tip_obs {
-            tip_obs = true;
-            rep.observe(json!({"note": "the record of the TIP block was removed from the store: the running object's verify_chain() reports it, but a restart (new Chain + initialize()) walks the height back, saves it and verify_chain() returns Ok on the truncated chain (Lean: reopen_heals_removed_tip_witness); nothing above the tip names its hash",
-                "class": "tensor_chain.initialize/removed_tip_block_undetected_after_restart", "registry": with_reg, "build": lines, "height_before": h0, "height_after_restart": rc.chain.height()}));
+        if damage == "remove_tip" && running_ver == format!("err not_found {n}") && opened.is_ok() && ver == "ok" && rc.chain.height() + 1 == h0 {
+            // known finding (see the directed case at the start of the run); same class, computed from this trace
+            violation(&mut rep, "tensor_chain.initialize/removed_tip_block_undetected_after_restart", "the record of the tip block was removed from the store: the running object's verify_chain() reports it, but a new Chain + initialize() walks the height back, saves it, and verify_chain() returns Ok on the truncated chain (Lean: reopen_heals_removed_tip_witness)",
+                json!({"stream": "reopen", "registry": with_reg, "build": lines, "damage": dmg_line, "verify_running_object": running_ver, "height_before": h0, "height_after_restart": rc.chain.height(), "verify_after_restart": ver}));
         }
         // one further block on the recovered head, then a second restart
         let txs = gen_txs(&mut r, 1, &mut val);
@@ -2337,6 +2635,9 @@ fn main() {
         let mut script: Vec<String> = Vec::new();
         let mut val = 0u64;
         let mut committed = 0u64;
+        // once a key under the reserved prefix was let into a workspace of this chain, every later oracle failure of the
+        // case is a consequence of that (the class is computed from the trace)
+        let mut tainted = false;
         for _ in 0..3 + r.below(6) {
             let w = tc.begin().unwrap();
             let mut ops = Vec::new();
@@ -2345,6 +2646,30 @@ fn main() {
                 w.add_operation(t.clone()).unwrap();
                 ops.push(format!("{t:?}"));
                 rep.hit(&format!("variants.op.{}", format!("{t:?}").split(' ').next().unwrap_or("")));
+            }
+            // keys under the reserved `chain:` prefix, any shape, any kind: never accepted (repo commit b368f92a)
+            let mut reserved_accepted: Vec<String> = Vec::new();
+            if r.chance(1, 3) {
+                for _ in 0..1 + r.below(2) {
+                    let h = tc.height();
+                    let key = match r.below(8) {
+                        0 => "chain:meta".to_string(),
+                        1 => "chain:".to_string(),
+                        2 => format!("chain:k{}", r.below(3)),
+                        3 => "chain:block:".to_string(),
+                        4 => format!("chain:block:{}", h + 1),
+                        _ => format!("chain:block:{}", r.below(h + 1)),
+                    };
+                    let kind = *r.pick(&["put", "del", "cas"]);
+                    val += 1;
+                    let res = w.add_operation(reserved_tx(kind, &key, val));
+                    ops.push(format!("{kind} {key} => {}", res.as_ref().map_or_else(|e| verr(e), |()| "ok".into())));
+                    if res.is_ok() {
+                        reserved_accepted.push(format!("{kind} {key}"));
+                    } else {
+                        rep.hit("variants.reserved.refused");
+                    }
+                }
             }
             let mode = match r.below(10) {
                 0..=5 => "commit",
@@ -2355,13 +2680,17 @@ fn main() {
             };
             script.push(format!("begin; {}; {mode}", ops.join("; ")));
             let input = |script: &Vec<String>| json!({"stream": "variants", "script": script});
+            if !reserved_accepted.is_empty() {
+                tainted = true;
+                violation(&mut rep, NAMESPACE_CLASS, &format!("add_operation accepted operations on keys under the reserved chain: prefix (regression of repo commit b368f92a): {reserved_accepted:?}"), input(&script));
+            }
             let before = chain_snap(&tc, &store);
             match mode {
                 "rollback" => {
                     let res = tc.rollback(&w);
                     let after = chain_snap(&tc, &store);
                     if res.is_err() || after != before {
-                        violation(&mut rep, "tensor_chain.rollback/fresh_rollback_changed_state", &format!("rollback of a workspace begun right before (no commit in between) = {:?}: {}", res.map_err(|e| e.to_string()), snap_diff(&before, &after).join("; ")), input(&script));
+                        violation(&mut rep, if tainted { NAMESPACE_CLASS } else { "tensor_chain.rollback/fresh_rollback_changed_state" }, &format!("rollback of a workspace begun right before (no commit in between) = {:?}: {}", res.map_err(|e| e.to_string()), snap_diff(&before, &after).join("; ")), input(&script));
                     }
                 }
                 "late_fail" => {
@@ -2371,7 +2700,7 @@ fn main() {
                     let after = chain_snap(&tc, &store);
                     rep.hit(&format!("variants.late_fail.{}", if res.is_err() { "failed" } else { "committed" }));
                     if res.is_ok() || after != before || tc.verify().is_err() {
-                        violation(&mut rep, "tensor_chain.commit/failed_commit_not_atomic", &format!("commit with the node's key unregistered = {:?}; chain/store before vs after: {}", res.map(|_| ()).map_err(|e| e.to_string()), snap_diff(&before, &after).join("; ")), input(&script));
+                        violation(&mut rep, if tainted { NAMESPACE_CLASS } else { "tensor_chain.commit/failed_commit_not_atomic" }, &format!("commit with the node's key unregistered = {:?}; chain/store before vs after: {}", res.map(|_| ()).map_err(|e| e.to_string()), snap_diff(&before, &after).join("; ")), input(&script));
                     }
                 }
                 _ => {
@@ -2380,7 +2709,7 @@ fn main() {
                         let init = tc.initialize();
                         let after = chain_snap(&tc, &store);
                         if init.is_err() || after != before {
-                            violation(&mut rep, "tensor_chain.initialize/restart_changed_chain", &format!("restart = {:?}: {}", init.map_err(|e| e.to_string()), snap_diff(&before, &after).join("; ")), input(&script));
+                            violation(&mut rep, if tainted { NAMESPACE_CLASS } else { "tensor_chain.initialize/restart_changed_chain" }, &format!("restart = {:?}: {}", init.map_err(|e| e.to_string()), snap_diff(&before, &after).join("; ")), input(&script));
                         }
                     }
                     let res = tc.commit(&w);
@@ -2393,11 +2722,20 @@ fn main() {
                         }
                     }
                     let (have, want) = (user_dump(&store), user_dump(&replayed));
-                    if res.is_err() || tc.height() != before.height + 1 || tc.verify().is_err() {
-                        violation(&mut rep, "tensor_chain.commit/sequential_commit_not_atomic", &format!("commit = {:?}, height {} -> {}, verify = {}", res.as_ref().map(|_| ()).map_err(|e| e.to_string()), before.height, tc.height(), vres(tc.verify())), input(&script));
+                    // the chain's own records after a successful commit: the old ones untouched, the new block record,
+                    // the height record rewritten (Lean: chain_records_change_only_through_append)
+                    let after = chain_snap(&tc, &store);
+                    let chain_changes = chain_record_changes(&before.dump, &after.dump);
+                    let chain_ok = res.is_err() || chain_changes == vec![format!("chain:block:{} NEW", before.height + 1), "chain:meta changed".to_string()];
+                    if tainted && (res.is_err() || tc.height() != before.height + 1 || tc.verify().is_err() || !chain_ok || have != want) {
+                        violation(&mut rep, NAMESPACE_CLASS, &format!("a workspace that was allowed to hold {reserved_accepted:?} was committed: commit = {:?}, height {} -> {}, verify = {}, chain records: {chain_changes:?}", res.as_ref().map(|_| ()).map_err(|e| e.to_string()), before.height, tc.height(), vres(tc.verify())), input(&script));
+                    } else if !chain_ok {
+                        violation(&mut rep, if tainted { NAMESPACE_CLASS } else { "tensor_chain.commit/chain_record_changed_outside_append" }, &format!("a successful commit changed chain records other than the new block record and the height record: {chain_changes:?}"), input(&script));
+                    } else if res.is_err() || tc.height() != before.height + 1 || tc.verify().is_err() {
+                        violation(&mut rep, if tainted { NAMESPACE_CLASS } else { "tensor_chain.commit/sequential_commit_not_atomic" }, &format!("commit = {:?}, height {} -> {}, verify = {}", res.as_ref().map(|_| ()).map_err(|e| e.to_string()), before.height, tc.height(), vres(tc.verify())), input(&script));
                     } else if have != want {
                         let keys: Vec<String> = have.keys().chain(want.keys()).filter(|k| have.get(*k) != want.get(*k)).cloned().collect::<BTreeSet<_>>().into_iter().collect();
-                        violation(&mut rep, "tensor_chain.commit/store_not_replay_of_chain", &format!("after a successful commit the keys written by transactions differ from the replay of the chain's blocks on an empty store: {keys:?}"), input(&script));
+                        violation(&mut rep, if tainted { NAMESPACE_CLASS } else { "tensor_chain.commit/store_not_replay_of_chain" }, &format!("after a successful commit the keys written by transactions differ from the replay of the chain's blocks on an empty store: {keys:?}"), input(&script));
                     } else {
                         committed += 1;
                     }
@@ -2411,52 +2749,6 @@ fn main() {
         }
     }
     lap("variants");
-    // ---------------- observations (outside the quantifier of the property, directed, implementation only)
-    {
-        // (a) a workspace may write under the chain's own key prefix: the record of block 1 is overwritten by a Put
-        let store = TensorStore::new();
-        let tc = TensorChain::with_identity(store.clone(), ChainConfig::new("n"), node_identity());
-        tc.initialize().unwrap();
-        let w = tc.begin().unwrap();
-        w.add_operation(Tx::Put(1, 1).real()).unwrap();
-        tc.commit(&w).unwrap();
-        let w = tc.begin().unwrap();
-        w.add_operation(Transaction::Put { key: "chain:block:1".into(), data: vec![1] }).unwrap();
-        let res = tc.commit(&w);
-        let ver = tc.verify();
-        if res.is_ok() && ver.is_err() {
-            rep.observe(json!({"class": "tensor_chain.commit/workspace_write_to_chain_namespace",
-                "note": "transaction keys are not separated from the chain's own records: begin; Put{key: \"chain:block:1\"}; commit succeeds on a chain of height 1 and overwrites the stored block 1, after which verify() fails although only begin/put/commit were used (the harness' generators and the model keep data keys and chain records apart)",
-                "ops": ["begin", "put d1", "commit", "begin", "put chain:block:1", "commit"], "commit": "ok", "verify": ver.map_err(|e| e.to_string()).err()}));
-        }
-        // (b) blocks built by TensorChain::commit replayed through TensorStateMachine::apply_block
-        for shared in [false, true] {
-            let store = TensorStore::new();
-            let tc = TensorChain::with_identity(store.clone(), ChainConfig::new("n"), node_identity());
-            tc.initialize().unwrap();
-            for i in 0..2u64 {
-                let w = tc.begin().unwrap();
-                w.add_operation(Tx::Put(i, i).real()).unwrap();
-                tc.commit(&w).unwrap();
-            }
-            let chain_store = TensorStore::new();
-            chain_store.put("chain:block:0", store.get("chain:block:0").unwrap()).unwrap();
-            let mut td = TensorData::new();
-            td.set("height", TensorValue::Scalar(ScalarValue::Int(0)));
-            chain_store.put("chain:meta", td).unwrap();
-            let graph = Arc::new(GraphEngine::with_store(chain_store.clone()));
-            let chain = Arc::new(Chain::new(graph, tc.node_id().clone()));
-            chain.initialize().unwrap();
-            let state = if shared { chain_store.clone() } else { TensorStore::new() };
-            let sm = TensorStateMachine::new(chain, shared_raft.clone(), state);
-            let verdicts: Vec<String> = (1..=tc.height()).map(|h| sm.apply_block(&tc.get_block(h).unwrap().unwrap()).map_or_else(|e| verr(&e), |()| "ok".into())).collect();
-            if verdicts.iter().any(|v| v != "ok") {
-                rep.observe(json!({"class": format!("tensor_chain.state_machine.apply_block/committed_block_rejected_{}_store_replica", if shared { "shared" } else { "separate" }),
-                    "note": "blocks produced by TensorChain::commit replayed through TensorStateMachine::apply_block on a fresh replica bootstrapped from the same genesis: the state root commit() wrote covers the proposer's whole store (chain records, graph records with wall-clock _created_at), so a replica with a separate state store rejects every block and a replica sharing its chain store rejects from block 2 on (Lean: committed_block_replays_on_shared_replica for the store image the model has, committed_block_rejected_by_separate_replica_witness)",
-                    "verdicts_blocks_1_2": verdicts}));
-            }
-        }
-    }
     // ---------------- stream F: real commit threads under the deterministic scheduler (tensor_store::verif::yield_point)
     // F0: one commit alone: its yield sequence against the model's atomic step list
     {
